@@ -12,6 +12,10 @@ callee's exception is still propagating and then let the same exception go on (c
 `except H: ...; raise`, `except H as e: ...; raise e`, a context manager's __exit__); the side element is an earlier
 node of any kind (possibly held already, uncached, failing itself) or a helper cells holding no value yet.  The
 executing chain is unchanged by a side element that completes; a side element that fails replaces the exception.
+Two more constructs (Inflight.SWALLOW_FORMS) handle a failure of the side element inside the handler (`except H: try:
+SIDE / except Exception: pass // raise`, `finally: try: SIDE / except Exception: pass`): the ORIGINAL exception goes
+on, its chain reaches down to the element that raised it and the swallowed failure of the side element (mostly an
+always-failing helper cells, else an earlier node) is not part of it.
 
 For every model, every top-level call that fails is made after histories of <= 2 earlier top-level calls of the
 types S (success), H (success that handled a failure inside), U (unhandled failure); after every failing call
@@ -30,7 +34,8 @@ DEFAULT_LIMIT = mx.get_recursion()
 # (kept across cases on purpose: it is the executor's state that matters)
 PENDING = []
 
-COVER = {"inflight": 0}     # failing calls during which a sibling was really evaluated and completed in flight
+COVER = {"inflight": 0,     # failing calls during which a sibling was really evaluated and completed in flight
+         "swallowed": 0}    # ... during which a sibling failed in flight, the wrapper swallowing that failure
 
 PATTERNS = [(), ("H",), ("U",), ("S",), ("H", "H"), ("H", "U"), ("U", "H"), ("U", "U"), ("H", "S"), ("S", "H"),
             ("S", "U")]
@@ -118,10 +123,13 @@ class Case17:
             for form, evaluated, completed in sim.inflight_evals:
                 # another element was evaluated (not a cache hit) while an exception was propagating
                 if evaluated:
-                    tags.add("sibling-evaluated-in-flight" if completed else "sibling-failed-in-flight")
+                    tags.add({True: "sibling-evaluated-in-flight", False: "sibling-failed-in-flight",
+                              "swallowed": "side-failure-swallowed"}[completed])
                     tags.add("inflight-" + form)
-            if any(ev and done for _f, ev, done in sim.inflight_evals):
+            if any(ev and done is True for _f, ev, done in sim.inflight_evals):
                 COVER["inflight"] += 1
+            if any(ev and done == "swallowed" for _f, ev, done in sim.inflight_evals):
+                COVER["swallowed"] += 1
             if self.errmode != "handled" and r[0] != "err":
                 res.notes.append("call expected to fail returned %r" % (r,))
                 PENDING += incall
@@ -367,7 +375,7 @@ def case_f(res, item):
     reset()
     rnd = random.Random(idx * 104729 + 7)
     spec, small, errmode, ph = make_spec(n, deps, p, fkind, rnd)
-    rnd2 = random.Random(idx * 7919 + 31 * Inflight.FORMS.index(form) + (placement == "some"))
+    rnd2 = random.Random(idx * 7919 + 31 * Inflight.ALL_FORMS.index(form) + (placement == "some"))
     if not add_inflight(spec, rnd2, form, placement):
         return                       # no call that can be wrapped: the model of case_e
     run_model(res, spec, small, errmode, ph, ("F", n, mask, p, fkind, form, placement), rnd)
@@ -389,10 +397,15 @@ def items_f(tier):
                         forms = Inflight.FORMS if n == 2 else [Inflight.FORMS[(idx + i) % nf] for i in range(2 if n == 3 else 1)]
                         for f in forms:
                             yield (idx, n, mask, deps, p, fkind, f, "all" if (idx // nf) % 2 == 0 else "some")
+                        if n <= 3:
+                            # the side's own failure is swallowed inside the handler, the original exception goes on
+                            for f in Inflight.SWALLOW_FORMS:
+                                yield (idx, n, mask, deps, p, fkind, f, "all" if (idx // 2) % 3 else "some")
                     else:
-                        for f in Inflight.FORMS:
+                        for f in Inflight.ALL_FORMS:
                             yield (idx, n, mask, deps, p, fkind, f, "all")
                         yield (idx, n, mask, deps, p, fkind, Inflight.FORMS[idx % nf], "some")
+                        yield (idx, n, mask, deps, p, fkind, Inflight.SWALLOW_FORMS[idx % 2], "some")
 
 
 def part_inflight(res, tier):
@@ -435,7 +448,7 @@ def part_sampled(res, tier):
 def run(res, tier, seed):
     global PENDING
     PENDING = []
-    COVER["inflight"] = 0
+    COVER["inflight"] = COVER["swallowed"] = 0
     res.bound = ("every DAG on <= 4 elements x every raising element x {ZeroDivisionError, custom BaseException, "
                  "None return, recursion limit} (quick: every 4th combination at 4 elements); for each model every "
                  "failing top-level call after each of 11 history patterns of <= 2 earlier calls of types "
@@ -443,14 +456,18 @@ def run(res, tier, seed):
                  "wrapped in constructs that evaluate another element while the callee's exception propagates "
                  "{try/finally, except-then-raise, except-as-then-raise-e, context manager __exit__} x {every call, "
                  "some calls} (quick: 2 elements: 4 constructs, 3 elements: 2 constructs, 4 elements: every 8th "
-                 "combination, 1 construct; thorough: 4 constructs on every call + 1 on some calls); + seeded samples "
+                 "combination, 1 construct; thorough: 4 constructs on every call + 1 on some calls), and with 2 constructs "
+                 "that swallow a failure of the side element inside the handler and let the original exception go on "
+                 "{except H: try side except Exception: pass; raise, finally: try side except Exception: pass} "
+                 "(quick: 2-3 elements; thorough: every call + 1 on some calls); + seeded samples "
                  "on 4-5 elements (also KeyboardInterrupt; every 3rd with such constructs)")
     res.rule = ("exhaustive product DAG x raising element x exception kind; element kinds (10), call styles (plain, "
                 "list comprehension, generator, lambda, subscript), raise site (statement, comprehension, generator, "
                 "nested def, referenced helper), the element whose failure is handled by its callers, handler classes "
                 "(catching / not catching), cached or uncached recursion helper and the error mode are drawn by an "
                 "index-seeded generator; for the in-flight constructs also the side element (an earlier node of any "
-                "kind or a helper cells holding no value yet), its call style and the class caught.  One evaluation = one top-level call; non-trivial = the call fails (the "
+                "kind or a helper cells holding no value yet; for the swallowing constructs mostly an always-failing "
+                "helper cells), its call style and the class caught.  One evaluation = one top-level call; non-trivial = the call fails (the "
                 "traceback contract is evaluated); distinct = distinct (model, call history).")
     ok = part_exhaustive(res, tier)
     ok2 = part_inflight(res, tier)
@@ -459,7 +476,8 @@ def run(res, tier, seed):
     res.notes = res.notes[:20]
     if tier == "quick":         # (thorough: counted in the worker processes, not merged)
         res.notes.append("%d of the failing calls evaluated and completed another element while the exception "
-                         "was propagating" % COVER["inflight"])
+                         "was propagating; in %d another element failed meanwhile, the formula swallowing that "
+                         "failure and letting the original exception go on" % (COVER["inflight"], COVER["swallowed"]))
     res.notes.append("not covered: trace_locals() contents; the text of FormulaError; the line reported for an "
                      "element whose formula returned None (no line is named by the statement)")
     PENDING = []
